@@ -76,7 +76,8 @@ func population() []*ref.StreamSpec {
 		mkStream(5, "fe80::2", "fe80::2", 81, 81, false, T0.Add(2*h), T0.Add(2*h), "q.pcap", C("a"), S("b")),
 		mkStream(6, "10.0.0.2", "10.0.1.1", 79, 79, false, T0.Add(sec), T0.Add(sec), "q.pcap", S("a"), C("a")),
 		mkStream(7, "10.0.0.1", "10.0.0.2", 80, 80, false, T0, T0.Add(sec), "q.pcap", C("ba")),
-		mkStream(8, "10.0.1.1", "10.0.1.1", 1, 65535, true, T0.Add(-h), T0.Add(2*h), "q.pcap", C("a"), C("b")),
+		// stream 8 starts first and ends last: the file's latest last-packet time does not belong to the stream that starts last
+		mkStream(8, "10.0.1.1", "10.0.1.1", 1, 65535, true, T0.Add(-h), T0.Add(3*h), "q.pcap", C("a"), C("b")),
 		mkStream(9, "fe80::1", "fe80::1", 80, 79, false, T0, T0, "q.pcap", S("b"), C("a"), S("a")),
 		mkStream(10, "10.0.0.2", "10.0.0.2", 81, 80, false, T0.Add(sec), T0.Add(sec), "q.pcap", C("aa"), S("bb")),
 		mkStream(11, "10.0.0.1", "10.0.1.1", 80, 81, true, T0.Add(2*h), T0.Add(2*h), "q.pcap", C("a"), S("a"), C("b")),
